@@ -183,6 +183,23 @@ fn inputs(rng: &mut Rng, k: &Kind, dim: usize, cap: usize) -> (Vec<Vec<f64>>, bo
     for _ in 0..20 {
         out.push((0..dim).map(|_| rng.gauss() * 3.0).collect());
     }
+    // a tiny dyadic step beside every breakpoint / tie (exposes tolerances slipped into a predicate)
+    for bp in breakpoints(k) {
+        for d in [2f64.powi(-30), -(2f64.powi(-30)), 2f64.powi(-45), -(2f64.powi(-45))] {
+            let mut p: Vec<f64> = (0..dim).map(|_| *rng.pick(&vals)).collect();
+            let j = rng.below(dim);
+            p[j] = bp + d;
+            out.push(p.clone());
+            // for the comparison-based kinds: two components that differ by the tiny step
+            if dim >= 2 {
+                let i = (j + 1) % dim;
+                let base = *rng.pick(&vals);
+                p[i] = base;
+                p[j] = base + d;
+                out.push(p);
+            }
+        }
+    }
     (out, full)
 }
 
